@@ -131,7 +131,13 @@ func runSteps(c Case, workers [][]Step, concurrent bool, res *vkit.Result) {
 						return
 					}
 					if spec.Pre != nil && d.b != nil {
-						if pan, stack := guarded(func() { build(d.b, spec.Pre, res) }); pan != nil {
+						// a copy of its own: two destinations built from one Dest (one per goroutine) must not share a map
+						var pre Obj
+						if raw, err := json.Marshal(spec.Pre); err != nil || json.Unmarshal(raw, &pre) != nil {
+							malformed()
+							return
+						}
+						if pan, stack := guarded(func() { build(d.b, &pre, res) }); pan != nil {
 							res.Fail("C12:panic@"+vkit.FirstLibFrame(stack), "building the value panicked: %v", pan)
 							return
 						}
@@ -182,6 +188,14 @@ func runSteps(c Case, workers [][]Step, concurrent bool, res *vkit.Result) {
 	// phase 3: judge every step with the per-value oracle
 	var infos []any
 	greySteps := 0
+	lastUse := map[*dest]*stepRun{}
+	for w := range runs {
+		for _, r := range runs[w] {
+			if r.d != nil {
+				lastUse[r.d] = r
+			}
+		}
+	}
 	for w := range runs {
 		for _, r := range runs[w] {
 			before := len(res.Viol)
@@ -218,6 +232,17 @@ func runSteps(c Case, workers [][]Step, concurrent bool, res *vkit.Result) {
 				}
 				res.Grey = g
 				infos = append(infos, map[string]any{"step": what, "outcome": info["outcome"], "forms": info["forms"]})
+				// a decoded value is the caller's: what it holds after the last step is what it held when its decode returned
+				if lastUse[r.d] == r && r.dec.pan == nil {
+					if r.d.sc != nil {
+						if now := r.d.sc.value(); !jsonEq(now, r.dec.afterS) {
+							res.Fail("C12:decoded-value-changed-by-later-steps", "the decoded %s was %s when the decode returned and is %s after the later steps", r.d.typ, canonJSON(r.dec.afterS), canonJSON(now))
+						}
+					} else if now := snapshot(r.d.b, nil); !snapEq(now, r.dec.after) {
+						res.Fail("C12:decoded-value-changed-by-later-steps", "the decoded %s held %s when the decode returned and holds %s after the later steps: it shares memory with values decoded later",
+							r.d.typ, clip([]byte(canonJSON(r.dec.after.plain()))), clip([]byte(canonJSON(now.plain()))))
+					}
+				}
 			}
 			for k := before; k < len(res.Viol); k++ {
 				res.Viol[k].Msg = what + ": " + res.Viol[k].Msg
